@@ -115,6 +115,8 @@ def no_panic_oracle(case, trace):
             yield "the static run through Iterator::nth / skip / step_by differs from the plain static run (items visited, or the draws of the whole run): %s" % r[:300]
         if t == "REUSE" and not r.startswith("same"):
             yield "a TestCase that has been iterated before does not behave like a freshly bound one (same script / driver of another layout / after an edit of the public signals): %s" % r[:300]
+        if t == "RENAME" and not r.startswith("same"):
+            yield "after an input and an output of a bound test were renamed (public field), a program that reads no output runs differently: %s" % r[:300]
         if t == "FREERUN" and not r.startswith("same"):
             yield "with the generator seeded by the system, resetRandom does not replay the run's own draws: %s" % r[:300]
         if t == "APICHK" and not r.startswith("ok"):
